@@ -266,7 +266,7 @@ def worker_main(args):
     except BaseException:  # pylint: disable=broad-except
         status = "crash"
         ctx.inconclusive_reason(
-            "harness error in shard %d: %s" % (args.shard, traceback.format_exc()[-700:])
+            "harness error in shard %d: %s" % (args.shard, traceback.format_exc()[-2500:])
         )
     finally:
         if cover is not None:
